@@ -257,6 +257,176 @@ def o4(h, st):
     h.done()
 
 
+# O6 estimators over an OPAQUE simulate(): any backend, any (sampled) histogram -------------------------------------------------------
+
+OPS2 = [["ZI", "XY"], ["II", "ZZ", "YX"], ["IX"], ["YI", "IZ", "XX"]]
+PREPS2 = {"pure": [("H", [0], None, ""), ("CNOT", [1], [0], "")], "mixed": [("H", [0], None, ""), ("MEASURE", [0], None, ""), ("RY", [1], None, 0.9)], "empty": []}
+
+
+def o6_structures(tier):
+    sts = []
+    for prep in PREPS2:
+        for op in (range(len(OPS2)) if tier != "quick" else (1, 3)):
+            for sv in (True, False):
+                for shots in (None, 100):
+                    for noise in (False, True):
+                        if (noise or not sv) and shots is None:
+                            continue           # the constructor refuses
+                        for init in ((False, True) if sv else (False,)):
+                            for what in ("expectation", "variance"):
+                                sts.append({"prep": prep, "op": op, "sv": sv, "shots": shots, "noise": noise, "init": init, "what": what})
+    sts += [{"prep": "pure", "op": 1, "sv": True, "shots": 100, "noise": False, "init": True, "what": w, "complex": True} for w in ("expectation", "variance")]
+    sts += [{"prep": "pure", "op": 0, "sv": False, "shots": 100, "noise": False, "init": True, "what": w, "refused": True} for w in ("expectation", "variance")]
+    return sts
+
+
+def _freq_names(n_calls, n):
+    return [f"f{k}_{b}" for k in range(n_calls) for b in keys(n)]
+
+
+def _o6_native(st, rnd, tier):
+    vals = {nm: rnd.uniform(0.0, 1.0) for nm in _freq_names(8, 2)}
+    vals.update({f"c{j}": rnd.uniform(-2, 2) for j in range(3)})
+    vals["E"] = rnd.uniform(-1, 1)
+    return [vals]
+
+
+@contract("C02", "O6.estimators.opaque_simulate", level="S", structures=o6_structures, native_samples=_o6_native, max_paths=8,
+          targets=[(BK, "Backend.get_expectation_value"), (BK, "Backend.get_variance"), (BK, "Backend._get_expectation_value_from_frequencies"),
+                   (BK, "Backend._get_variance_from_frequencies"), (BK, "Backend._get_expectation_value_from_statevector"),
+                   (BK, "get_expectation_value_from_frequencies_oneterm"), (BK, "get_variance_from_frequencies_oneterm"), (MB, "measurement_basis_gates")])
+def o6(h, st):
+    """simulate() OPAQUE (any backend, exact or sampled: call k returns an arbitrary histogram f_k over all bitstrings, or an opaque statevector token):
+    get_expectation_value == sum_t c_t sum_b f_k(t)[b] (-1)^{|b & supp t|} + c_identity and get_variance == sum_t c_t^2 sum_b f_k(t)[b] (E_t - s_b)^2, as polynomial
+    identities in EVERY coefficient and histogram entry; the circuit of call k(t) is the preparation followed by the basis rotation of term t (statevector shortcut:
+    one preparation call, then the rotation alone on the returned state); the caller's initial statevector (same object) and desired mid-circuit results are
+    forwarded on every route - mixed-state, noisy and statevector-less ones included; backends without statevectors refuse an initial statevector (ValueError);
+    without shots on a noiseless statevector backend the prepared state is handed to expectation_value_from_prepared_state with the operator and width"""
+    import numpy as np
+    from tangelo.linq import Circuit
+    from tangelo.linq.target.backend import Backend
+    from tangelo.linq.helpers.circuits.measurement_basis import measurement_basis_gates
+    from tangelo.toolboxes.operators import QubitOperator
+    n = 2
+    words = OPS2[st["op"]]
+    cs = [h.real(f"c{j}") for j in range(len(words))]
+    E = h.real("E")
+    fsym = {nm: h.real(nm) for nm in _freq_names(8, n)}
+    h.numeric_pi()
+    sv_avail, shots, noisy = st["sv"], st["shots"], st["noise"]
+
+    class Opaque(Backend):
+        def __init__(self):
+            super().__init__(n_shots=shots, noise_model=({"X": ("pauli", [0.1, 0.0, 0.0])} if noisy else None))
+            self.calls, self.evcalls = [], []
+
+        def simulate_circuit(self, *a, **k):
+            raise AssertionError("opaque backend")
+
+        def simulate(self, source_circuit, return_statevector=False, initial_statevector=None, desired_meas_result=None, save_mid_circuit_meas=False):
+            k = len([c for c in self.calls if not c["rsv"]])
+            rec = {"circuit": source_circuit, "rsv": return_statevector, "init": initial_statevector, "desired": desired_meas_result, "k": k}
+            self.calls.append(rec)
+            freqs = {b: fsym[f"f{k}_{b}"] for b in keys(source_circuit.width)} if not return_statevector else {}
+            rec["token"] = ("statevector-of-call", len(self.calls)) if return_statevector else None
+            return freqs, rec["token"]
+
+        def expectation_value_from_prepared_state(self, qubit_operator, n_qubits, prepared_state):
+            self.evcalls.append((qubit_operator, n_qubits, prepared_state))
+            return E
+
+        @staticmethod
+        def backend_info():
+            return {"statevector_available": sv_avail, "statevector_order": "lsq_first", "noisy_simulation": True, "n_qubits_max": 20}
+
+    sim = Opaque()
+    gates = build_prep(PREPS2[st["prep"]])
+    mixed = any(g.name == "MEASURE" for g in gates)
+    c = mk_circuit(gates, n)
+    qop = QubitOperator()
+    if st.get("complex"):
+        coefs = [0.5 + 1.5j, -0.25 + 2j, 1.0 - 1j][:len(words)]
+    else:
+        coefs = cs
+    for w, cf in zip(words, coefs):
+        qop.terms[tuple((i, p) for i, p in enumerate(w) if p != "I")] = cf
+    init = ("caller-statevector",) if st["init"] else None
+    desired = "1" if mixed else None
+    fn = "Backend.get_expectation_value" if st["what"] == "expectation" else "Backend.get_variance"
+    if st.get("refused"):
+        e = h.raises(lambda: h.call(BK, fn, sim, qop, c, init, desired), ValueError)
+        h.check("initial statevector refused by a backend without statevectors", e is not None)
+        h.check("nothing simulated", sim.calls == [])
+        h.done()
+        return
+    val = h.call(BK, fn, sim, qop, c, init, desired)
+    sv_shortcut = sv_avail and not mixed and not noisy
+    if st["what"] == "expectation" and sv_avail and not noisy and shots is None and len(gates) > 0 and not st.get("complex"):
+        # statevector route of a backend that evaluates operators itself (mixed-state preparations too: the branch selected by the desired results)
+        h.check("one preparation call returning the statevector", len(sim.calls) == 1 and sim.calls[0]["rsv"] is True and sim.calls[0]["circuit"] is c)
+        h.check("initial statevector / desired results forwarded to the preparation", sim.calls[0]["init"] is init and sim.calls[0]["desired"] == desired)
+        h.check("operator, width and prepared state handed to the backend", len(sim.evcalls) == 1 and sim.evcalls[0][0] is qop and sim.evcalls[0][1] == n
+                and sim.evcalls[0][2] == sim.calls[0]["token"])
+        h.check_close("value is the backend's answer", val, E)
+        h.done()
+        return
+    # frequency routes
+    calls = list(sim.calls)
+    parts = [[(w, cf) for w, cf in zip(words, coefs)]]
+    if st.get("complex"):
+        parts = [[(w, cf.real) for w, cf in zip(words, coefs)], [(w, cf.imag) for w, cf in zip(words, coefs)]]
+    totals = []
+    k = 0
+    ok_circ = ok_fw = ok_prep = True
+    for part in parts:
+        tot = 0
+        token = None
+        if sv_shortcut:
+            # the state is prepared once per (real / imaginary) operator
+            if k < len(calls) and calls[k]["rsv"] is True and calls[k]["circuit"] is c and calls[k]["init"] is init and calls[k]["desired"] == desired:
+                token = calls[k]["token"]
+            else:
+                ok_prep = False
+            k += 1
+        for w, cf in part:
+            term = tuple((i, p) for i, p in enumerate(w) if p != "I")
+            if not term and st["what"] == "expectation":
+                tot = tot + cf
+                continue
+            if k >= len(calls):
+                ok_circ = False
+                break
+            call = calls[k]
+            f = {b: fsym[f"f{call['k']}_{b}"] for b in keys(n)}
+            sgn = {b: (-1) ** sum(1 for i, _ in term if b[i] == "1") for b in f}
+            Et = sum(sgn[b] * f[b] for b in f)
+            if st["what"] == "expectation":
+                tot = tot + cf * Et
+            else:
+                tot = tot + cf * cf * sum(f[b] * (Et - sgn[b]) * (Et - sgn[b]) for b in f)
+            exp_basis = [(g.name, list(g.target), float(g.parameter) if g.parameter != "" else "") for g in measurement_basis_gates(term)]
+            got = [(g.name, list(g.target), float(g.parameter) if g.parameter != "" else "") for g in call["circuit"]._gates]
+            exp_prefix = [] if sv_shortcut else [(g.name, list(g.target), float(g.parameter) if g.parameter != "" else "") for g in gates]
+            if got != exp_prefix + exp_basis or call["circuit"].width != n or call["rsv"]:
+                ok_circ = False
+            if not ((call["init"] == token if sv_shortcut else call["init"] is init) and call["desired"] == desired):
+                ok_fw = False
+            k += 1
+        totals.append(tot)
+    if sv_shortcut:
+        h.check("statevector shortcut: the state is prepared once (per Hermitian part) with the caller's initial statevector and desired results", ok_prep)
+    h.check("call k(t) simulates preparation ++ basis rotation of term t (rotation alone after the statevector shortcut), one call per non-identity term",
+            ok_circ and k == len(calls), detail=f"{k} of {len(calls)} calls")
+    h.check("initial statevector (the caller's object, or the prepared state after the shortcut) and desired mid-circuit results forwarded to every call", ok_fw)
+    if st.get("complex"):
+        exp = totals[0] + (1j * totals[1] if st["what"] == "expectation" else totals[1])
+    else:
+        exp = totals[0]
+    h.check_close("value == the estimator of the returned histograms (polynomial identity)", val, exp)
+    h.check("state-preparation circuit and operator unchanged", [g.name for g in c._gates] == [g.name for g in gates] and len(qop.terms) == len(words))
+    h.done()
+
+
 PROPERTY = {
     "level": "other",
     "explanation": "One-term estimators (parity-weighted sums, variance) are proved for every frequency assignment, the basis rotations exactly "
